@@ -45,13 +45,11 @@ Print Assumptions C06_stale_removed.
 (* selected source entries survive the deletions of a successful run (the mirror's "superset" half is C01) *)
 Theorem C06_deletions_spare_selected : forall refuse ds c now U keep src dst,
   src_wf src -> c_dry_run c = false -> dst [] = None ->
-  (forall e, In e src -> se_is_dir e = true -> forall cc s t, dst (se_path e) <> Some (File cc s t)) ->
-  (forall e, In e src -> se_is_dir e = false -> dst (se_path e) <> Some Dir) ->
   let r := run refuse ds c now U keep src dst in
   r_refused r = false -> r_errors r = [] -> forall e, In e src -> r_fs r (se_path e) <> None.
 Proof.
-  intros refuse ds c now U keep src dst Hwf Hdry Hroot Hnf Hnd2 r Href Herr e He.
-  destruct (run_post refuse ds c now U keep src dst Hwf Hdry Hroot Hnf Hnd2 Href Herr e He) as (x & Hx & _). fold r in Hx. congruence.
+  intros refuse ds c now U keep src dst Hwf Hdry Hroot r Href Herr e He.
+  destruct (run_post refuse ds c now U keep src dst Hwf Hdry Hroot Href Herr e He) as (x & Hx & _). fold r in Hx. congruence.
 Qed.
 Print Assumptions C06_deletions_spare_selected.
 
@@ -59,8 +57,6 @@ Print Assumptions C06_deletions_spare_selected.
    destination paths equal to the source's: exact mirror, for every pair of trees *)
 Theorem C06_mirror : forall refuse ds c now U src dst,
   src_wf src -> c_dry_run c = false -> c_delete c = true -> dst [] = None ->
-  (forall e, In e src -> se_is_dir e = true -> forall cc s t, dst (se_path e) <> Some (File cc s t)) ->
-  (forall e, In e src -> se_is_dir e = false -> dst (se_path e) <> Some Dir) ->
   let r := run refuse ds c now U [] src dst in
   r_refused r = false -> r_errors r = [] ->
   forall q, In q U -> (r_fs r q <> None <-> In q (paths_of src)).
